@@ -116,7 +116,7 @@ func main() {
 	alphabet = append(partlib.Alphabet(run.Thorough()), partlib.RestoreOps()...)
 	samples := &ev.Samples{N: 5}
 	st := seq.BFS(seq.Config[*wld, partlib.Op]{
-		Depth: depth, Workers: 16, Deadline: time.Now().Add(budget),
+		Depth: depth, Workers: 16, Deadline: time.Now().Add(budget), HangCPU: 20 * time.Second,
 		Build:   func(wi int, path []partlib.Op) (*wld, string, string) { return build(path) },
 		Enabled: func(w *wld) []partlib.Op { return alphabet },
 		Canon:   func(w *wld) string { return idxlib.DumpKey(w.r.P.Index().VerifDump()) },
